@@ -11,6 +11,9 @@ if [ "$ROUND" = "1" ]; then
 elif [ "$ROUND" = "3" ]; then
   ROOT=/tmp/seed3
   SPECS="C01-control-length-u16-add-overflow:C01 C02-reveal-chunk-granular-bound:C02 C03-resultcode-msg-fffd-rejected:C03 C04-data-length-patched-at-absolute-2:C04 C05-data-header-length-u16-wrap:C05 C06-length-member-12-drops-avps:C06 C07-writer-default-method-native-endian:C07 C08-control-guard-len-as-u16:C08 C09-backpatch-skipped-when-length-equals-end:C09 C10-encoder-refuses-exactly-65535:C10 C11-scratch-buffer-241-250-secret-panics:C11 C12-scratch-buffer-241-250-secret-truncates:C12 C13-resultcode-all-nul-message-panics:C13 C14-try-read-skips-optional-vendor-avps:C14 C15-greedy-stops-after-256-records:C15 C18-bytes-position-plus-length-overflow:C18 C19-secret-prefix-memo-keyed-by-address:C19 C20-q931-dangling-lead-octet-accepted:C20"
+elif [ "$ROUND" = "13" ]; then
+  ROOT=/tmp/seed13
+  SPECS="${SPECS13:?set SPECS13}"
 elif [ "$ROUND" = "12" ]; then
   ROOT=/tmp/seed12
   SPECS="C01-proxy-authen-id-guard-dropped-skip-before-helper:C01 C02-proxy-authen-id-guard-dropped-skip-before-helper-2:C02 C03-message-type-discriminants-off-by-one-after-13:C03 C04-data-header-buffer-holds-six-fields:C04 C05-message-type-list-omits-outgoing-call-reply:C05 C06-length-msb-mask-operator-precedence:C06 C07-avp-length-assert-bounds-payload-not-total:C07 C08-data-header-length-counter-misses-ns-nr:C08 C09-size-assert-on-absolute-writer-fill:C09 C10-encoder-flags-from-masks-length-msbs:C10 C11-hide-chunk-loop-accumulates-buffer:C11 C12-hide-keyed-context-accumulates-ciphertext:C12 C13-proxy-authen-id-guard-dropped-skip-before-helper-3:C13 C14-offset-arm-ignores-unused-option:C14 C15-length-overrun-guard-six-octets-lenient:C15 C18-refused-bytes-moves-cursor-to-end:C18 C19-reveal-md5-input-scratch-not-cleared:C19 C20-avp-name-table-swaps-12-and-13:C20"
@@ -42,10 +45,16 @@ else
   ROOT=/tmp/seed2
   SPECS="C01-resultcode-error-guard-weakened:C01 C02-stale-length-offset-check:C02 C03-avp-count-bound-8-octets:C03 C04-zero-offset-flag-omitted:C04 C05-hidden-vendor-accepted-2:C05 C06-header-length-from-get-length-chars:C06 C07-encoder-trusts-nonzero-length:C07 C08-reserved-flag-bit-leaks-into-length:C08 C09-length-bits-from-page-difference:C09 C10-zlb-stale-length:C10 C11-reveal-rejects-empty-value:C11 C12-hide-length-subfield-layout:C12 C13-reveal-lower-bound-lost:C13 C14-unused-rejects-slack-octets:C14 C15-unknown-avp-without-m-dropped:C15 C18-overwrite-at-zero-saturating-guard:C18 C19-global-strict-reserved-switch:C19 C20-bare-error-type-not-read:C20"
 fi
+# JOBS=n evaluates n changes at a time (each has its own worktree, target and shadow).
+JOBS="${JOBS:-1}"
 for spec in $SPECS; do
   name="${spec%%:*}"; prop="${spec##*:}"
   if [ -n "${ONLY:-}" ] && [[ " $ONLY " != *" $prop "* ]]; then continue; fi
-  echo "=== $name"
-  python3 tools/seeded.py eval "$name" "$prop" "$ROOT/$prop" ${SEEDED_CHECKS:+--checks $SEEDED_CHECKS} 2>&1 | grep -v WARNING | tail -4 | cut -c1-900
+  (
+    out=$(python3 tools/seeded.py eval "$name" "$prop" "$ROOT/$prop" ${SEEDED_CHECKS:+--checks $SEEDED_CHECKS} 2>&1 | grep -v WARNING | tail -4 | cut -c1-900)
+    printf '=== %s\n%s\n' "$name" "$out"
+  ) &
+  while [ "$(jobs -rp | wc -l)" -ge "$JOBS" ]; do sleep 1; done
 done
+wait
 echo ALLDONE
